@@ -122,7 +122,7 @@ func lostAckProxy(next http.Handler) http.Handler {
 
 // Kinds lists every configuration name Open understands.
 func Kinds() []string {
-	return []string{"memory", "memory-paged", "sqlite-file", "sqlite-mem", "sqlite-batch1", "sqlite-batch2", "sqlite-batch3", "sqlite-batch5", "sqlite-batch1000", "sqlite-hooks-batch4", "sqlite-nomigrate", "durable", "durable-chunk400"}
+	return []string{"memory", "memory-paged", "sqlite-file", "sqlite-mem", "sqlite-batch1", "sqlite-batch2", "sqlite-batch3", "sqlite-batch5", "sqlite-batch1000", "sqlite-hooks-batch4", "sqlite-nomigrate", "sqlite-mem-batch2", "durable", "durable-chunk400"}
 }
 
 var fileSeq atomic.Int64
@@ -159,7 +159,7 @@ func Open(kind, scratch string) (*Opened, error) {
 			opts = append(opts, sqlite.WithLogger(nopLogger{}), sqlite.WithMetricsHook(nopMetrics{}), sqlite.WithBusyTimeout(200*time.Millisecond))
 		}
 		path := ":memory:"
-		if kind != "sqlite-mem" {
+		if !strings.HasPrefix(kind, "sqlite-mem") {
 			if err := os.MkdirAll(scratch, 0o755); err != nil {
 				return nil, err
 			}
